@@ -51,6 +51,8 @@ Faults(b) ==
   \cup {F("undeftype", [doc EXCEPT ![i].p = <<"@nope">>], "typenotfound", i, "kw", 0) : i \in {x \in 1..n : doc[x].k = "RESP" /\ doc[x].p = <<"any">>}}
   \cup {F("undeftype-body", [doc EXCEPT ![i].b = "refu"], "typenotfound", i, "body", 0) : i \in {x \in 1..n : doc[x].k \in {"Headers", "Query", "Params"}}}
   \cup {F("undeftag", [doc EXCEPT ![i].p = <<"@nope">>], "tagnotfound", i, "kw", 0) : i \in {x \in 1..n : doc[x].k = "Tags"}}
+  \cup {F("undeftag-in-list", [doc EXCEPT ![ij[1]].p = SubSeq(@, 1, ij[2]) \o <<"@nope">> \o SubSeq(@, ij[2] + 1, Len(@))], "tagnotfound", ij[1], "kw", 0)
+          : ij \in {q \in (1..n) \X (0..3) : doc[q[1]].k = "Tags" /\ q[2] <= Len(doc[q[1]].p)}}
   \cup {F("undefmacro", [doc EXCEPT ![i].p = <<"@nope">>], "nomacro", i, "kw", 0) : i \in {x \in 1..n : doc[x].k = "PASTE"}}
   \cup {F("jsight-missing", Tail(doc), "jsightfirst", 1, "kw", 0),
         F("jsight-not-first", SubSeq(doc, 2, BlockStart(bs, 2) - 1) \o <<J>> \o SubSeq(doc, BlockStart(bs, 2), n), "jsightfirst", 1, "kw", 0),
